@@ -803,6 +803,384 @@ def audit_cases(rng, k=1):
     return cases
 
 
+# ------------------------------------------------------------------------------------------
+# size thresholds / algorithm regimes (notes/AUDIT_GUIDE.md, row of that name; notes/C09_report.md "Round-4 misses").
+# Library kernels and tempting rewrites change algorithm with the size of a dimension (sort: stable only up to 16 elements;
+# blocked reductions / vectorised loops: 32, 64, 128; index dtypes: 2^8, 2^15, 2^16), so every entry point gets cases whose
+# sequence dimension - and, separately, batch dimension, trailing dimension, both at once, and the OUTPUT width T' - sits at
+# and next to those sizes, with a globally distinct integer payload (a permuted / dropped / duplicated cell is visible),
+# at least one row that FILLS the dimension and rows with many kept elements / the largest legal pads.  Judged by the model
+# (same Coq check term; the model is linear in the number of cells: about 1 s per 1000 cells) and, in addition, by
+# size_oracle: a plain python reading of the per-row definition in the property text, which is the only judge of the
+# cases the model cannot afford (sequence dimension next to 2^15 and 2^16).
+# ------------------------------------------------------------------------------------------
+SIZES = [17, 31, 32, 33, 63, 64, 65, 127, 128, 129, 255, 256, 257]
+SIZE_MARKS = [15, 16] + SIZES
+HUGE_SIZES = [32767, 32768, 32769, 65535, 65536, 65537]
+MODEL_CELLS_CAP = 6000          # input cells above which a case is judged by size_oracle alone
+
+
+def _mk_x_distinct(N, T, F, salt=0):
+    """payload distinct over the WHOLE tensor (and from every fill value): 11, 12, 13, ... in row-major order"""
+    return [[[(n * T + t) * F + f + 11 + salt for f in range(F)] for t in range(T)] for n in range(N)]
+
+
+def _size_lens(rng, N, T, lo):
+    """ragged lengths, one row fills the dimension, others next to the marks below T"""
+    marks = [m for m in SIZE_MARKS if lo <= m <= T]
+    lens = []
+    for _ in range(N):
+        opts = [T, T, max(T - 1, lo), max(T // 2, lo), rng.randint(lo, T), lo]
+        if marks:
+            opts += [rng.choice(marks), marks[0]]
+        lens.append(rng.choice(opts))
+    lens[rng.randrange(N)] = T
+    return lens
+
+
+def _size_pad(rng, mode, ln, pmax):
+    """a legal pad amount for a row of length ln: none, one, the largest legal one, a mark, anything"""
+    hi = ln - 1 if mode == "reflect" else pmax
+    if hi <= 0:
+        return 0
+    opts = [0, 1, hi, hi, rng.randint(0, hi), rng.randint(0, hi)]
+    marks = [m for m in SIZE_MARKS if m <= hi]
+    if marks:
+        opts += [rng.choice(marks), marks[-1]]
+    return rng.choice(opts)
+
+
+def _size_slice(rng, mode, ln, pmax):
+    """a legal slice for a row of length ln (every kind the quantifier names), pads as _size_pad"""
+    if ln == 0:
+        return (0, 0) if mode != "constant" or rng.random() < 0.5 else (-_size_pad(rng, mode, 0, pmax), _size_pad(rng, mode, 0, pmax))
+    lp, rp = _size_pad(rng, mode, ln, pmax), _size_pad(rng, mode, ln, pmax)
+    kind = rng.random()
+    if kind < 0.3:                       # the whole sequence with both paddings
+        return (-lp, ln + rp)
+    if kind < 0.45:                      # wholly in the right padding
+        s = ln + rng.randint(0, rp)
+        return (s, ln + rp) if s < ln + rp else (ln, ln + rp)
+    if kind < 0.55:                      # wholly in the left padding
+        return (-lp, -rng.randint(0, lp))
+    if kind < 0.7:                       # from inside to the right / from the left to inside
+        return (rng.randint(0, ln), ln + rp) if rng.random() < 0.5 else (-lp, rng.randint(0, ln))
+    if kind < 0.8:                       # chunk length at a mark
+        marks = [m for m in SIZE_MARKS if m <= lp + ln + rp]
+        if marks:
+            w = rng.choice(marks)
+            s = rng.randint(-lp, ln + rp - w)
+            return (s, s + w)
+    if kind < 0.88:                      # empty / inverted
+        s = rng.randint(-lp, ln + rp)
+        return (s, s - rng.choice([0, 0, 1, ln]))
+    s = rng.randint(0, ln)
+    return (s, rng.randint(s, ln))       # inside
+
+
+def _size_mask_row(rng, T, kind):
+    if kind == "full":
+        return [True] * T
+    if kind == "none":
+        return [False] * T
+    if kind == "alternate":
+        ph = rng.randrange(2)
+        return [(t + ph) % 2 == 0 for t in range(T)]
+    if kind == "ends":
+        return [t in (0, T - 1) for t in range(T)]
+    if kind == "all-but-one":
+        j = rng.randrange(T) if T else 0
+        return [t != j for t in range(T)]
+    if kind == "head":                   # the first k kept, k next to a mark
+        k = rng.choice([m for m in SIZE_MARKS if m <= T] or [T])
+        return [t < k for t in range(T)]
+    if kind == "tail":
+        k = rng.choice([m for m in SIZE_MARKS if m <= T] or [T])
+        return [t >= T - k for t in range(T)]
+    dens = {"dense": 0.9, "half": 0.5, "sparse": 0.1}[kind]
+    return [rng.random() < dens for _ in range(T)]
+
+
+MASK_KINDS = ["full", "none", "alternate", "ends", "all-but-one", "head", "tail", "dense", "dense", "half", "sparse"]
+SIZE_ENTRY = {"pad": ["kw", "script_fn", "script_mod"], "chunk": ["kw", "script_fn", "script_mod", "lens_explicit"],
+              "masked": ["kw", "script_fn", "script_mod"], "shift": ["kw", "module_kw"]}
+
+
+def _size_case(rng, api, dim, S, S2=None, slim=False):
+    """one legal case of `api` whose dimension `dim` (T: sequence, N: batch, F: trailing, NT: both, Tp: output width) is S"""
+    mode = rng.choice(MODES)
+    lo = 0 if mode == "constant" else 1
+    F = 1
+    if dim == "T":
+        N, T, F = rng.choice([1, 2] if slim else [1, 2, 3]), S, 1 if slim else rng.choice([1, 1, 1, 2])
+        pmax = rng.choice([2, T, T + 1, min(2 * T, 257)])
+    elif dim == "N":
+        N, T, F = S, rng.choice([1, 2, 3] if S < 200 else [1, 2]), rng.choice([1, 1, 2] if S < 100 else [1])
+        pmax = 2
+    elif dim == "F":
+        N, T, F = rng.choice([1, 2]), rng.choice([2, 3]), S
+        pmax = 2
+    elif dim == "NT":
+        N, T = S, S2
+        pmax = rng.choice([1, 3, T])
+    elif dim == "Tp":                    # a short input whose padded row / chunk is S wide
+        N, T = rng.choice([1, 2, 3]), (rng.randint((S + 2) // 3 + 1, S - 2) if mode == "reflect" else rng.randint(1, min(S - 2, 40)))
+        if api == "shift":               # prop 1 and a variate that makes the drawn amount exactly S - T
+            T = rng.randint(S // 2 + 1, S - 1)
+        pmax = S - T
+    else:
+        raise KeyError(dim)
+    if dim == "F":
+        rest = rng.choice([[F], [F, 1], [1, F]] + ([[2, F // 2]] if F % 2 == 0 else []))
+    else:
+        rest = _rest_for(F, rng)
+    kw = dict(value=rng.choice([-7, 0, 5]), dtype=rng.choice(["f64", "f32", "i64"]))
+    lens = _size_lens(rng, N, T, lo)
+    if api == "pad":
+        pl = [_size_pad(rng, mode, ln, pmax) for ln in lens]
+        pr = [_size_pad(rng, mode, ln, pmax) for ln in lens]
+        if dim == "Tp":                  # one row is exactly S wide, nobody is wider
+            n = lens.index(T)
+            pl[n] = rng.randint(max(0, S - T - (T - 1)), min(T - 1, S - T)) if mode == "reflect" else rng.randint(0, S - T)
+            pr[n] = S - T - pl[n]
+            for m in range(N):
+                over = lens[m] + pl[m] + pr[m] - S
+                if over > 0:
+                    cut = min(over, pr[m])
+                    pr[m] -= cut
+                    pl[m] -= over - cut
+        c = pad_case(N, T, rest, lens, pl, pr, mode, **kw)
+    elif api == "chunk":
+        slices = [_size_slice(rng, mode, ln, pmax) for ln in lens]
+        if dim == "Tp":
+            n = lens.index(T)
+            lp = rng.randint(max(0, S - T - (T - 1)), min(T - 1, S - T)) if mode == "reflect" else rng.randint(0, S - T)
+            slices[n] = (-lp, S - lp)
+            slices = [(s, min(e, s + S)) for s, e in slices]
+        use_none = all(ln == T for ln in lens) and rng.random() < 0.6
+        c = chunk_case(N, T, rest, None if use_none else lens, slices, mode, **kw)
+    elif api == "masked":
+        kinds = [rng.choice(MASK_KINDS) for _ in range(N)]
+        kinds[rng.randrange(N)] = "full"
+        if N > 1:
+            kinds[rng.choice([n for n in range(N) if kinds[n] != "full"] or [0])] = rng.choice(["dense", "all-but-one", "half"])
+        c = masked_case(N, T, rest, [_size_mask_row(rng, T, k) for k in kinds], rng.random() < 0.5, **kw)
+    else:
+        props = [("1", "1"), ("1/2", "1"), ("1", "1/4"), ("7/8", "7/8"), ("1/8", "1")]
+        if mode != "reflect":
+            props += [("3/2", "2"), ("3", "1/2")]
+        if dim in ("N", "F", "NT"):      # keeps the output narrow
+            props = [("1", "1"), ("1/2", "1"), ("1", "1/2")]
+        prop = rng.choice(props)
+        us = lambda: [rng.choice([Fraction(1023, 1024), Fraction(1023, 1024), Fraction(3, 4), Fraction(1, 2), Fraction(0),
+                                  Fraction(rng.randint(0, 1023), 1024)]) for _ in range(N)]
+        u0, u1, training = us(), us(), rng.random() < 0.9
+        if dim == "Tp":                  # a row that fills T is padded by exactly S - T on one side, nobody gets wider
+            prop, training = ("1", "1"), True
+            ud = Fraction(-((-1024 * (S - T)) // T), 1024)
+            u0, u1 = [rng.choice([ud, ud, Fraction(0), Fraction(1, 2) if ud > Fraction(1, 2) else ud]) for _ in range(N)], [Fraction(0)] * N
+            u0[lens.index(T)] = ud
+            if rng.random() < 0.5:
+                u0, u1 = u1, u0
+        c = shift_case(N, T, rest, lens, mode, prop, training, u0, u1, **kw)
+        if rng.random() < 0.5:
+            c["functional"] = True
+        elif prop[0] == prop[1] and rng.random() < 0.5:
+            c["single_prop"] = True
+    c["x"] = _mk_x_distinct(N, T, _F(c), rng.choice([0, 1000]))
+    c["size"] = {"dim": dim, "S": S}
+    if api != "shift" and rng.random() < 0.5:
+        c["module"] = True
+    return c
+
+
+def _size_alts(rng, c, i):
+    """the other one of functional / module form, one more entry point (keywords, scripted function, scripted module) in
+    rotation, one layout / dtype / history variant"""
+    api = c["api"]
+    canonical = ("functional" if c.get("functional") else "module") if api == "shift" else ("module" if c.get("module") else "functional")
+    other = "module" if canonical == "functional" else "functional"
+    entry = SIZE_ENTRY[api][i % len(SIZE_ENTRY[api])]
+    pool = [a for a in ALTS[api] if a not in HOWS and a not in ("module_kw", "lens_explicit", "alias")]
+    if max((v for row in c["x"] for cell in row for v in cell), default=0) > 2048:
+        pool = [a for a in pool if a != "f16"]          # float16 holds integers exactly up to 2048 only
+    return [other, entry, rng.choice(pool)]
+
+
+def size_cases(rng, k=1):
+    cases = []
+
+    def add(c, stream="size-regime"):
+        c["alts"] = _size_alts(rng, c, len(cases))
+        c["audit"] = stream
+        c["stream"] = stream
+        cases.append(c)
+    for rep in range(k):
+        for api in ("pad", "chunk", "masked", "shift"):
+            for S in SIZES:                                  # the sequence dimension at every mark
+                add(_size_case(rng, api, "T", S))
+            if api == "masked":                              # both layouts at and next to the sort mark, and once more above
+                for S in (16, 17, 17, rng.choice(SIZES[1:])):
+                    c = _size_case(rng, api, "T", S)
+                    c["batch_first"] = not cases[-1].get("batch_first", False)
+                    add(c)
+            for S in [17] + rng.sample(SIZES[1:], 3):        # the batch dimension
+                add(_size_case(rng, api, "N", S))
+            for S in [17] + rng.sample(SIZES[1:], 2):        # the trailing dimension
+                add(_size_case(rng, api, "F", S))
+            for S, S2 in [(17, 17), rng.choice([(17, 33), (33, 17), (32, 32), (16, 65), (65, 16), (64, 17), (18, 129)])]:
+                add(_size_case(rng, api, "NT", S, S2))
+            if api != "masked":                              # the output width T' at a mark, the input shorter
+                for S in rng.sample(SIZES, 3):
+                    add(_size_case(rng, api, "Tp", S))
+    # sequence dimension next to 2^15 / 2^16 (index dtypes): the model cannot afford them, size_oracle judges
+    huge = HUGE_SIZES if k > 1 else [rng.choice(HUGE_SIZES[:3]), rng.choice(HUGE_SIZES[3:])]
+    for rep in range(2 if k > 1 else 1):
+        for api in ("pad", "chunk", "masked", "shift"):
+            for S in huge:
+                c = _size_case(rng, api, "T", S, slim=True)
+                if api == "shift":                           # float32 holds prop * len * u exactly for these only
+                    c["prop"] = list(rng.choice([("1", "1"), ("1/2", "1"), ("1", "1/4")] + ([] if c["mode"] == "reflect" else [("2", "1")])))
+                    c["u0"] = [str(rng.choice([Fraction(3, 4), Fraction(1, 2), Fraction(1, 4), Fraction(0)])) for _ in range(c["N"])]
+                    c["u1"] = [str(rng.choice([Fraction(3, 4), Fraction(1, 2), Fraction(1, 4), Fraction(0)])) for _ in range(c["N"])]
+                    c.pop("single_prop", None)
+                c["dtype"] = rng.choice(["f64", "i64"])      # the payload exceeds 2^24
+                c["alts"] = [a for a in _size_alts(rng, c, len(cases)) if a not in ("relabel", "f16", "i32")][:2]
+                c["stream"] = "size-regime-oracle"
+                cases.append(c)
+    return cases
+
+
+def model_affordable(case):
+    return case["N"] * case["T"] * _F(case) <= MODEL_CELLS_CAP
+
+
+def _pad1(mode, seq, l, r, fill):
+    """the standard rule on ONE sequence (list of cells)"""
+    if mode == "constant":
+        return [fill] * l + seq + [fill] * r
+    if mode == "reflect":
+        return [seq[i] for i in range(l, 0, -1)] + seq + [seq[len(seq) - 2 - i] for i in range(r)]
+    return [seq[0]] * l + seq + [seq[-1]] * r
+
+
+def _pad1_legal(mode, ln, l, r):
+    return True if mode == "constant" else (l < ln and r < ln) if mode == "reflect" else ln >= 1
+
+
+def size_oracle(case, out):
+    """the per-row definition of the property text in plain python (no torch, no model): None = agrees or no opinion
+    (malformed / illegal input), else a description of the first difference"""
+    api, N, T = case["api"], case["N"], case["T"]
+    fill = [case["value"]] * _F(case)
+    if N == 0:
+        return None
+    mode = case.get("mode")
+    lens = case.get("lens")
+    if api != "masked":
+        if lens is None:
+            lens = [T] * N
+        if len(lens) != N or any(not 0 <= ln <= T for ln in lens):
+            return None
+        if mode != "constant" and min(lens) < 1:
+            return None
+    if api == "pad":
+        if len(case["pl"]) != N or len(case["pr"]) != N:
+            return None
+        if not all(_pad1_legal(mode, ln, l, r) for ln, l, r in zip(lens, case["pl"], case["pr"])):
+            return None
+        if out[0] != "ok":
+            return "a legal call raises (outcome code %d)" % out[1]
+        for n in range(N):
+            want = _pad1(mode, case["x"][n][:lens[n]], case["pl"][n], case["pr"][n], fill)
+            got = out[1][n][:len(want)]
+            if got != want:
+                return _first_diff(n, got, want, "pad of the sequence alone")
+        return None
+    if api == "chunk":
+        rows = []
+        for n in range(N):
+            s, e = case["slices"][n]
+            L = max(e - s, 0)
+            lp, rp = (max(-s, 0), max(e - lens[n], 0)) if L else (0, 0)
+            if not _pad1_legal(mode, lens[n], lp, rp):
+                return None
+            rows.append((s, e, L, lp, rp))
+        if out[0] != "ok":
+            return "a legal call raises (outcome code %d)" % out[1]
+        if out[1][1] != [r[2] for r in rows]:
+            return "reported lengths %s..., requested %s..." % (out[1][1][:8], [r[2] for r in rows][:8])
+        for n, (s, e, L, lp, rp) in enumerate(rows):
+            want = _pad1(mode, case["x"][n][:lens[n]], lp, rp, fill)[s + lp:e + lp] if L else []
+            got = out[1][0][n][:L]
+            if got != want:
+                return _first_diff(n, got, want, "slice of the padded sequence alone")
+        return None
+    if api == "masked":
+        if out[0] != "ok":
+            return "a legal call raises (outcome code %d)" % out[1]
+        for n in range(N):
+            kept = [cell for cell, b in zip(case["x"][n], case["mask"][n]) if b]
+            if out[1][1][n] != len(kept):
+                return "row %d: reported count %d, %d elements selected" % (n, out[1][1][n], len(kept))
+            want = kept + [fill] * (T - len(kept))
+            if out[1][0][n] != want:
+                return _first_diff(n, out[1][0][n], want, "selected elements in order, then the padding value")
+        return None
+    p0, p1 = (Fraction(p) for p in case["prop"])
+    if p0 < 0 or p1 < 0 or (mode == "reflect" and (p0 > 1 or p1 > 1)):
+        return None
+    if out[0] != "ok":
+        return "a legal call raises (outcome code %d)" % out[1]
+    if not case["training"]:
+        return None if out[1] == [case["x"], lens] else "evaluation mode is not the identity"
+    for n in range(N):
+        seq, ol, row = case["x"][n][:lens[n]], out[1][1][n], out[1][0][n]
+        extra = ol - lens[n]
+        found = False
+        if 0 <= extra and ol <= len(row):
+            first = [int(p0 * lens[n] * Fraction(case["u0"][n]))] if "seed" not in case else []
+            for l in first + list(range(0, min(extra, int(p0 * lens[n])) + 1)):
+                r = extra - l
+                if not (0 <= l <= p0 * lens[n] and 0 <= r <= p1 * lens[n] and _pad1_legal(mode, lens[n], l, r)):
+                    continue
+                if row[l:l + min(2, lens[n])] != seq[:2]:
+                    continue
+                if row[:ol] == _pad1(mode, seq, l, r, fill):
+                    found = True
+                    break
+        if not found:
+            return ("row %d (length %d, reported %d): no pair of whole pad amounts (l <= %s*len, r <= %s*len) makes the row the "
+                    "padded sequence with the original embedded unchanged; row starts %s" % (n, lens[n], ol, p0, p1, row[:6]))
+    return None
+
+
+def _compact(case):
+    """replay form of a case of the oracle-only stream: the generated payload by its rule, mask rows as bit strings"""
+    c = dict(case)
+    for salt in (0, 1000):
+        if c["x"] == _mk_x_distinct(c["N"], c["T"], _F(c), salt):
+            c["x"] = "distinct:%d" % salt
+    if "mask" in c:
+        c["mask"] = ["".join("1" if b else "0" for b in row) for row in c["mask"]]
+    return c
+
+
+def _expand(case):
+    c = dict(case)
+    if isinstance(c.get("x"), str):
+        c["x"] = _mk_x_distinct(c["N"], c["T"], _F(c), int(c["x"].split(":")[1]))
+    if "mask" in c:
+        c["mask"] = [[ch == "1" for ch in row] if isinstance(row, str) else row for row in c["mask"]]
+    return c
+
+
+def _first_diff(n, got, want, what):
+    j = next((i for i, (a, b) in enumerate(zip(got, want)) if a != b), min(len(got), len(want)))
+    return ("row %d differs from the %s at position %d of %d: got %s, expected %s" %
+            (n, what, j, len(want), got[max(j - 1, 0):j + 3], want[max(j - 1, 0):j + 3]))
+
+
 def nontrivial(case):
     """C09 rule: some pad or slice bound outside the sequence (pad > 0, start < 0 or end > len);
     masked: a row that is neither all-true nor all-false; shift: a non-zero drawn pad amount."""
@@ -890,6 +1268,28 @@ def _term(case, out):
 def _fails(chk, case):
     out = run_impl(case)
     return not coq_eval_bools(chk.workdir, IMPORTS, [_term(case, out)], tag="shr")[0]
+
+
+def _eval_balanced(workdir, terms, big=4000):
+    """coq_eval_bools cuts the list into contiguous shards: the long terms of the size-regime stream are dealt round-robin,
+    longest first, into shards of their own so that no single coqc gets all of them"""
+    small = [i for i, t in enumerate(terms) if len(t) <= big]
+    large = sorted((i for i, t in enumerate(terms) if len(t) > big), key=lambda i: -len(terms[i]))
+    res = [None] * len(terms)
+    for i, ok in zip(small, coq_eval_bools(workdir, IMPORTS, [terms[i] for i in small])):
+        res[i] = ok
+    if large:
+        nsh = min(32, max(1, len(large) // 3))
+        per = -(-len(large) // nsh)
+        padded = []                     # large[j::nsh] has per or per - 1 elements: every shard of `per` terms is one deal
+        for j in range(nsh):
+            deal = large[j::nsh]
+            padded += deal + [None] * (per - len(deal))
+        got = coq_eval_bools(workdir, IMPORTS, ["true" if i is None else terms[i] for i in padded], shard=per, tag="big")
+        for i, ok in zip(padded, got):
+            if i is not None:
+                res[i] = ok
+    return res
 
 
 def same_outcome(base, other, alt):
@@ -1010,6 +1410,7 @@ def run(chk, cases=None):
                 c["alts"] = [pool[(i // 8) % len(pool)]]
         cases += random_cases(chk.rng, 12000 if chk.tier == "thorough" else 1000)
         cases += audit_cases(chk.rng, 8 if chk.tier == "thorough" else 1)
+        cases += size_cases(chk.rng, 6 if chk.tier == "thorough" else 1)
         if chk.tier == "thorough":
             chk.extra["exhaustive"] = True
             chk.extra["exhaustive_scope"] = (
@@ -1019,12 +1420,19 @@ def run(chk, cases=None):
     import time
     t_start = time.time()
     outs, terms, metas = [], [], []
-    alt_bad = []
+    alt_bad, oracle_bad = [], []
     for i_, c in enumerate(cases):
         stream = c.pop("stream", "random")
         out = run_impl(c)
         outs.append(out)
-        terms.append(_term(c, out))
+        terms.append(_term(c, out) if model_affordable(c) else "true")
+        if c.get("size") or not model_affordable(c):
+            msg_ = size_oracle(c, out)
+            chk.count("size:%s/%s/%s" % (c["api"], (c.get("size") or {}).get("dim", "?"), "model+oracle" if model_affordable(c) else "oracle"))
+            if c.get("size"):
+                chk.count("size:S=%d" % c["size"]["S"])
+            if msg_ is not None:
+                oracle_bad.append((i_, msg_))
         for a_, oa_ in run_alts(c, out):
             alt_bad.append((i_, a_, oa_))
         for a_ in c.get("alts") or []:
@@ -1050,7 +1458,7 @@ def run(chk, cases=None):
         if c["api"] == "pad":
             chk.count("pad>T=%s" % any(p > c["T"] for p in c["pl"] + c["pr"]))
     t_impl = time.time()
-    res = coq_eval_bools(chk.workdir, IMPORTS, terms)
+    res = _eval_balanced(chk.workdir, terms)
     t_coq = time.time()
     chk.extra["phase_s"] = {"implementation": round(t_impl - t_start, 1), "model_in_coq": round(t_coq - t_impl, 1)}
     bad = [i for i, ok in enumerate(res) if not ok]
@@ -1068,14 +1476,32 @@ def run(chk, cases=None):
     source_tie(chk, cases, outs)
     chk.extra["variant_disagreements"] = len(alt_bad)
     for i, a, oa in alt_bad[:6]:
-        chk.report({"case": cases[i], "impl": outs[i], "variant": a, "variant_impl": oa,
+        heavy = not model_affordable(cases[i])
+        omit = lambda o: ("ok", "<omitted>") if heavy and o[0] == "ok" else o
+        chk.report({"case": _compact(cases[i]) if heavy else cases[i], "impl": omit(outs[i]), "variant": a, "variant_impl": omit(oa),
                     "what": "relation: the same logical call through variant '%s' (entry point / memory layout / dtype / call history / "
                             "aliasing, see ALTS in harness/props/c09.py) gives a different outcome than the canonical call%s"
                             % (a, "; " + ERRTXT[oa[1]] if oa[0] == "err" and oa[1] in ERRTXT else ""),
                     "correspondence": "corr:C09:variants"})
+    # size-regime cases judged by the python oracle of the per-row definition: the only judge of the cases the model cannot
+    # afford; for the others the model (below) reports, the oracle only when the model let the case pass
+    chk.extra["size_oracle_disagreements"] = len(oracle_bad)
+    nrep = 0
+    for i, msg in oracle_bad:
+        if nrep >= 3 or (i in bad and model_affordable(cases[i])):
+            continue
+        nrep += 1
+        c, o = cases[i], outs[i]
+        heavy = not model_affordable(c)
+        chk.report({"case": _compact(c) if heavy else c, "impl": ("ok", "<omitted: %d rows>" % c["N"]) if heavy and o[0] == "ok" else o,
+                    "what": "size regime: the output violates the per-row definition of the property (python oracle size_oracle in "
+                            "harness/props/c09.py, dimension '%s' = %s): %s" % ((c.get("size") or {}).get("dim"), (c.get("size") or {}).get("S"), msg),
+                    "correspondence": "corr:C09:" + {"pad": "pad_variable", "chunk": "chunk_by_slices",
+                                                     "masked": "pad_masked_sequence", "shift": "RandomShift"}[c["api"]],
+                    "theorems_at_stake": THEOREMS[c["api"]]})
     found_concrete = False
     for i in bad[:6]:
-        case = shrink(cases[i], lambda c: _fails(chk, c), _cands, budget=30)
+        case = shrink(cases[i], lambda c: _fails(chk, c), _cands, budget=8 if cases[i].get("size") else 30)
         out = run_impl(case)
         rec, spec_ok = judge(chk, case, out)
         if not spec_ok:
@@ -1122,7 +1548,7 @@ def source_tie(chk, cases, outs):
     import time
     from vlib import CoqError
     idx = [i for i, (c, o) in enumerate(zip(cases, outs))
-           if c.get("api") == "pad" and len(c["pl"]) == len(c["pr"]) and (o[0] == "ok" or o[1] in (1, 2, 3))]
+           if c.get("api") == "pad" and len(c["pl"]) == len(c["pr"]) and (o[0] == "ok" or o[1] in (1, 2, 3)) and model_affordable(c)]
     total = len(idx)
     if total > SRC_TIE_CAP:     # evenly spaced sample, first and last kept
         idx = sorted({idx[(k * (total - 1)) // (SRC_TIE_CAP - 1)] for k in range(SRC_TIE_CAP)})
@@ -1159,4 +1585,4 @@ def replay(chk, path):
     rec = json.loads(open(path).read())
     case = rec.get("case", rec)
     case.pop("stream", None)
-    run(chk, [dict(case)])
+    run(chk, [_expand(case)])
